@@ -290,6 +290,14 @@ def table(I):
         return acc
     reg(sum, m_sum)
 
+    def m_format(x, spec=''):
+        if isinstance(x, SInt) and spec == 'x':
+            return hex_of_int(x)
+        if is_symbolic(x):
+            raise Unsupported('format(%s, %r)' % (type(x).__name__, spec))
+        return format(x, spec)
+    reg(format, m_format)
+
     # ---- struct ------------------------------------------------------------
     reg(struct.pack, lambda fmt, *vals: struct_pack(I, fmt, vals))
     reg(struct.unpack, lambda fmt, data: struct_unpack(I, fmt, data))
@@ -297,6 +305,44 @@ def table(I):
     # ---- str methods with symbolic arguments ----------------------------------
     T[('method', 'join', 'str')] = None     # resolved in call path (see str_method)
     return _Table(T, I)
+
+
+_hexstr = z3.Function('hexstr', z3.IntSort(), z3.StringSort())
+
+
+def hex_of_int(x):
+    """format(n, 'x'): assumed = signed lower-case hexadecimal without leading zeros ('-' prefix when negative),
+    i.e. Java's BigInteger.toString(16); an uninterpreted function of the integer value."""
+    t = z3.BV2Int(x.t, True) if x.bv else x.t
+    return SStr(_hexstr(t))
+
+
+def int_from_bytes(I, b, byteorder='big', signed=False, **kw):
+    """int.from_bytes: assumed = two's-complement value of the bytes in the given order (Int mode: explicit sum)."""
+    if kw:
+        raise Unsupported('int.from_bytes keyword %r' % (list(kw),))
+    if not is_symbolic(b):
+        return int.from_bytes(b, byteorder, signed=signed)
+    if is_symbolic(signed):
+        signed = I.truth(signed)
+    ts = SBytes.of(b).byte_terms()
+    if ts is None:
+        raise Unsupported('int.from_bytes of an opaque blob')
+    if byteorder == 'little':
+        ts = ts[::-1]
+    elif byteorder != 'big':
+        raise ValueError("byteorder must be either 'little' or 'big'")
+    if I.E.int_mode == 'bv':
+        if 8 * len(ts) >= W:
+            raise Unsupported('int.from_bytes wider than BV(%d)' % W)
+        return bytes_int(ts, signed, 'bv')
+    n = len(ts)
+    total = z3.IntVal(0)
+    for k, t in enumerate(ts):
+        total = total + z3.BV2Int(t, False) * (1 << (8 * (n - 1 - k)))
+    if signed and n:
+        total = total - z3.If(z3.BV2Int(ts[0], False) >= 128, z3.IntVal(1 << (8 * n)), z3.IntVal(0))
+    return SInt(total, None, None)
 
 
 def _concretize_int(x):
@@ -502,6 +548,9 @@ def struct_unpack(I, fmt, data):
 # string formatting with symbolic pieces
 # --------------------------------------------------------------------------
 def _to_sstr(I, x, conv):
+    if isinstance(x, SIntStr):
+        s = _to_sstr(I, x.n, 'd')
+        return s + x.suffix if x.suffix else s
     if isinstance(x, SStr):
         if conv == 'r':
             return I.E.new_str('repr')
